@@ -526,7 +526,7 @@ func wildcardPairs(rec *vr.Rec, rounds int) {
 }
 
 func TestRun(t *testing.T) {
-	rec := vr.New("C10", "per transport (udp, dtls-PSK, tcp, tls over loopback): 4..8 well-behaved sequential clients (each request carries client id + sequence, echoed) concurrent with 2..6 adversarial peers following PRNG programs (random bytes, truncated valid messages, oversize messages, unsolicited ACK/RST, responses with unknown tokens, stray block-wise fragments, DTLS/TLS-looking garbage records, connect-and-stall, oversize stream headers, abrupt close mid-message, signalling frames); unicast discovery with 0..3 responders answering from their own sockets plus a foreign-token response and a late response; stall probes on tcp/tls: 1..3 peers connected and silent (nothing / partial TLS record / partial frame) while a new client must be served; keep-alive isolation on all four transports: a server with keep-alive, one silent peer and 2..4 live idle peers. Distinct = distinct (transport, clients, adversaries, seed) tuples.")
+	rec := vr.New("C10", "per transport (udp, dtls-PSK, tcp, tls over loopback): 4..8 well-behaved sequential clients (each request carries client id + sequence, echoed) concurrent with 2..6 adversarial peers following PRNG programs (random bytes, truncated valid messages, oversize messages, unsolicited ACK/RST, responses with unknown tokens, stray block-wise fragments, DTLS/TLS-looking garbage records, connect-and-stall, oversize stream headers, abrupt close mid-message, signalling frames); unicast discovery with 0..3 responders answering from their own sockets plus a foreign-token response and a late response; stall probes on tcp/tls: 1..3 peers connected and silent (nothing / partial TLS record / partial frame) while a new client must be served; server-initiated udp connections (Server.NewConn with the peer address in 4-byte / 16-byte / resolved form, wildcard and concrete listeners); keep-alive isolation on all four transports: a server with keep-alive, one silent peer and 2..4 live idle peers. Distinct = distinct (transport, clients, adversaries, seed) tuples.")
 	defer rec.Flush(true)
 	seed := vr.Seed()
 	rnd := rand.New(rand.NewSource(seed))
@@ -556,6 +556,7 @@ func TestRun(t *testing.T) {
 	wg.Wait()
 	discovery(rec, vr.Scale(12, 200), seed)
 	wildcardPairs(rec, vr.Scale(6, 100))
+	serverInitiated(rec, vr.Scale(8, 80))
 	for _, kind := range []string{"tcp", "tls"} {
 		stallProbe(rec, kind, vr.Scale(4, 40), seed)
 	}
